@@ -224,13 +224,11 @@ Qed.
 
 Lemma validate_run h w :
   validate h w = true ->
-  exists ls s, project init ls = Some (s, flat_map norm_obs h) /\
-               (ends_quiescent h = true -> quiescent s = true).
+  exists ls s, project init ls = Some (s, flat_map norm_obs h).
 Proof.
   unfold validate. destruct (project init (rev (tr w))) as [[sf os]|] eqn:E; [|discriminate].
-  intros H. apply andb_prop in H as [H H4]. apply andb_prop in H as [H H3]. apply andb_prop in H as [H1 H2].
-  apply olist_eqb_eq in H1. subst os. exists (rev (tr w)), sf. split; [exact E|].
-  intros Q. rewrite Q in H4. exact H4.
+  intros H. apply andb_prop in H as [H H3]. apply andb_prop in H as [H1 H2].
+  apply olist_eqb_eq in H1. subst os. exists (rev (tr w)), sf. exact E.
 Qed.
 
 (* A history accepted by the checker (code 1 absent) is a history of the model, hence satisfies clauses
@@ -238,19 +236,20 @@ Qed.
 Lemma accepted_history_safe h w :
   validate h w = true -> monotone_b h = true /\ genuine_from 1 h = true.
 Proof.
-  intros V. destruct (validate_run h w V) as [ls [s [P _]]]. split.
+  intros V. destruct (validate_run h w V) as [ls [s P]]. split.
   - rewrite <- monotone_norm. apply (model_history_monotone ls s _ P).
   - rewrite <- genuine_norm. apply (model_history_genuine ls s _ P).
 Qed.
 
-(* ... and if it ends with the harness's claim of quiescence, the witness ends in a reachable quiescent
-   state of the model, to which thm_quiescent_delivered applies. *)
-Lemma accepted_history_quiescent h w :
-  validate h w = true -> ends_quiescent h = true ->
-  exists s, reachable s /\ quiescent s = true /\ (forall c, versions_c s c = recvs c h).
+(* ... and it ends in a reachable state of the model in which every client has received exactly what the
+   history says it received; from there thm_reaches_quiescence and thm_quiescent_delivered apply: the
+   server's own steps lead to a state where every connected client holds the latest result. *)
+Lemma accepted_history_reachable h w :
+  validate h w = true ->
+  exists s, reachable s /\ (forall c, versions_c s c = recvs c h).
 Proof.
-  intros V Q. destruct (validate_run h w V) as [ls [s [P HQ]]]. exists s.
-  split; [exists ls; apply (project_run _ _ _ _ P)|]. split; [apply HQ; exact Q|].
+  intros V. destruct (validate_run h w V) as [ls [s P]]. exists s.
+  split; [exists ls; apply (project_run _ _ _ _ P)|].
   intros c. pose proof (project_recvs init ls s _ c P) as E. unfold versions_c in E at 2. simpl in E.
   rewrite E. apply recvs_norm.
 Qed.
